@@ -481,20 +481,38 @@ inductive Param
   | ecpk (v : Bytes) | rn (v : Bytes) | other (t : Nat) (v : Bytes)
   deriving DecidableEq, Repr
 
-/-- one parameter from its type and value octets (length already matched) -/
-def param : Nat → Bytes → Option Param
-  | 1, [v] => some (.version v)
-  | 2, [a, b] => some (.miux ((a * 256 + b) % 2048))
-  | 3, [a, b] => some (.wks (a * 256 + b))
-  | 4, [v] => some (.lto v)
-  | 5, [v] => some (.rw (v % 16))
-  | 6, v => some (.sn v)
-  | 7, [v] => some (.opt (v % 8))
-  | 8, tid :: sn => some (.sdreq tid sn)
-  | 9, [tid, sap] => some (.sdres tid sap)
-  | 10, v => some (.ecpk v)
-  | 11, v => some (.rn v)
-  | t, v => if t = 0 ∨ t ≥ 12 then some (.other t v) else none
+/-- one parameter from its type and value octets (length already matched);
+LLCP 1.3 section 4.5: VERSION, LTO, RW, OPT one octet; MIUX, WKS two octets;
+SDREQ TID + name; SDRES TID + SAP; SN, ECPK, RN octet strings; anything else is skipped -/
+def param (t : Nat) (v : Bytes) : Option Param :=
+  if t = 1 then match v with
+    | [x] => some (.version x)
+    | _ => none
+  else if t = 2 then match v with
+    | [a, b] => some (.miux ((a * 256 + b) % 2048))
+    | _ => none
+  else if t = 3 then match v with
+    | [a, b] => some (.wks (a * 256 + b))
+    | _ => none
+  else if t = 4 then match v with
+    | [x] => some (.lto x)
+    | _ => none
+  else if t = 5 then match v with
+    | [x] => some (.rw (x % 16))
+    | _ => none
+  else if t = 6 then some (.sn v)
+  else if t = 7 then match v with
+    | [x] => some (.opt (x % 8))
+    | _ => none
+  else if t = 8 then match v with
+    | tid :: sn => some (.sdreq tid sn)
+    | [] => none
+  else if t = 9 then match v with
+    | [tid, sap] => some (.sdres tid sap)
+    | _ => none
+  else if t = 10 then some (.ecpk v)
+  else if t = 11 then some (.rn v)
+  else some (.other t v)
 
 /-- TLV list of an information field; `none` = malformed -/
 def params : Nat → Bytes → Option (List Param)
